@@ -48,7 +48,7 @@ theorem readBack_typed (nsmap) (hstd : StdMap nsmap) (ft : Bool) (attr : QName) 
   obtain ⟨q, hq⟩ := hname
   have hx := xmlQName_xsd hstd l
   have hl' : ¬ ((⟨nsXsd, l⟩ : QName).uri = xsdUri ++ "QName") := by simpa using hl
-  simp [readBack, extractAttr, childNode, henc, hq, hx, hl', Except.map]
+  simp [readBack, extractAttr, xmlNameStr, xmlValue, xmlValueStep, childNode, henc, hq, hx, hl', Except.map]
 
 /-- reading a child without XML attributes: the text itself -/
 theorem readBack_plain (nsmap) (ft : Bool) (attr : QName) (v : Value) (t : String)
@@ -56,7 +56,7 @@ theorem readBack_plain (nsmap) (ft : Bool) (attr : QName) (v : Value) (t : Strin
     (henc : encodeXmlAttr ft attr v = { xsiType := none, lang := none, ref := none, text := some t }) :
     readBack nsmap ft attr v = .ok (.val (.str t)) := by
   obtain ⟨q, hq⟩ := hname
-  simp [readBack, extractAttr, childNode, henc, hq, Except.map]
+  simp [readBack, extractAttr, xmlNameStr, xmlValue, xmlValueStep, childNode, henc, hq, Except.map]
 
 /-- **int**: written with xsi:type="xsd:int" for both force_types values, read back as Literal(text, xsd:int), stored as the int -/
 theorem c02_int (nsmap) (hstd : StdMap nsmap) (ft : Bool) (attr : QName) (ha : PlainAttr attr)
@@ -145,7 +145,7 @@ theorem c02_ref (nsmap) (ft : Bool) (attr : QName) (href : isRefAttr attr = true
   have henc : encodeXmlAttr ft attr (.qn q) = { xsiType := none, lang := none, ref := some q.print, text := none } := by
     simp [encodeXmlAttr, href, hne', Value.pyStrFull, Value.pyStr]
   refine ⟨.val (.qn q'), ?_, (m.validQ q').2, ?_, ?_⟩
-  · simp [readBack, extractAttr, childNode, henc, ht, hres, Except.map]
+  · simp [readBack, extractAttr, xmlNameStr, xmlValue, xmlValueStep, childNode, henc, ht, hres, Except.map]
   · simp [ArgVal.toNameArg, NsMgr.validName]
   · rw [NsMgr.validQ_uri hm q', huri]
 
@@ -160,7 +160,7 @@ theorem c02_lang (nsmap) (ft : Bool) (attr : QName) (hnr : isRefAttr attr = fals
   have henc : encodeXmlAttr ft attr (.lit v (some (provQ "InternationalizedString")) (some l)) =
       { xsiType := none, lang := some l, ref := none, text := some v } := by
     simp [encodeXmlAttr, hnr, hu, Value.pyStrFull]
-  simp [readBack, extractAttr, childNode, henc, ht, Except.map, hl]
+  simp [readBack, extractAttr, xmlNameStr, xmlValue, xmlValueStep, childNode, henc, ht, Except.map, hl]
 
 /-! ### the subtype element consumes exactly one pair -/
 
